@@ -39,15 +39,29 @@ const DOCS: &[(&str, Kind, &str)] = &[
     ("comments", Kind::Valid, "a: 6 # c\nb: [6] # d\n# trailing\n"),
 ];
 
+/// second family (former finding F20): a fixed-arity root type and documents with surplus elements
+const DOCS_TUPLE: &[(&str, Kind, &str)] = &[
+    ("pair", Kind::Valid, "[1, 2]\n"),
+    ("pair_block", Kind::Valid, "- 5\n- 6\n"),
+    ("surplus_nested", Kind::TypeError, "[1, 2, [3, 4]]\n"),
+    ("surplus_scalar", Kind::TypeError, "[1, 2, 3]\n"),
+    ("missing", Kind::TypeError, "[7]\n"),
+    ("null", Kind::Skipped, "~\n"),
+    ("surplus_deep", Kind::TypeError, "- 1\n- 2\n- [[3, 4], {a: [5, 6]}]\n- [7, 8]\n"),
+];
+fn pair_ty() -> Ty {
+    Ty::Tuple(vec![Ty::Int(true, 32), Ty::Int(true, 32)])
+}
+
 fn rec_ty() -> Ty {
     Ty::Struct(vec![("a".into(), Ty::Int(true, 32)), ("b".into(), Ty::Seq(Box::new(Ty::Int(true, 32))))], false)
 }
 
-fn stream_of(seq: &[usize]) -> String {
+fn stream_of(docs: &[(&str, Kind, &str)], seq: &[usize]) -> String {
     let mut s = String::new();
     for &i in seq {
         s.push_str("---\n");
-        s.push_str(DOCS[i].2);
+        s.push_str(docs[i].2);
     }
     s
 }
@@ -93,9 +107,14 @@ pub fn run(ctx: &mut Ctx) {
         replay(ctx, &r);
         return;
     }
+    family(ctx, DOCS, &rec_ty());
+    family(ctx, DOCS_TUPLE, &pair_ty());
+}
+
+fn family(ctx: &mut Ctx, docs: &[(&str, Kind, &str)], ty: &Ty) {
     let quick = ctx.quick();
     let mut rng = ctx.rng.fork();
-    let n = DOCS.len();
+    let n = docs.len();
     let mut seqs: Vec<Vec<usize>> = vec![vec![]];
     for a in 0..n {
         seqs.push(vec![a]);
@@ -115,11 +134,11 @@ pub fn run(ctx: &mut Ctx) {
             }
         }
     }
-    let ty = rec_ty();
+    let ty = ty.clone();
     let o = DOpts::new(P::Error);
     // per-document reference results
-    let alone: Vec<Result<Val, serde_saphyr::Error>> = DOCS.iter().map(|d| single(&format!("---\n{}", d.2), &ty)).collect();
-    for (i, d) in DOCS.iter().enumerate() {
+    let alone: Vec<Result<Val, serde_saphyr::Error>> = docs.iter().map(|d| single(&format!("---\n{}", d.2), &ty)).collect();
+    for (i, d) in docs.iter().enumerate() {
         // sanity of the kind table itself
         let ok = match d.1 {
             Kind::Valid => alone[i].is_ok(),
@@ -131,8 +150,8 @@ pub fn run(ctx: &mut Ctx) {
         }
     }
     for seq in &seqs {
-        let text = stream_of(seq);
-        let names: Vec<&str> = seq.iter().map(|&i| DOCS[i].0).collect();
+        let text = stream_of(docs, seq);
+        let names: Vec<&str> = seq.iter().map(|&i| docs[i].0).collect();
         let nontrivial = seq.len() >= 2;
         ctx.count(&format!("stream_len_{}", seq.len()));
         let rs = rawcoq::raw_stream(live::strip_bom(&text));
@@ -156,13 +175,13 @@ pub fn run(ctx: &mut Ctx) {
         // ---- S
         ctx.direct_evaluations += 3;
         let replay = json!({"kind": "stream", "docs": names, "text": text});
-        let kinds: Vec<Kind> = seq.iter().map(|&i| DOCS[i].1).collect();
+        let kinds: Vec<Kind> = seq.iter().map(|&i| docs[i].1).collect();
         // batch: the list of per-document results, first error wins, null/empty skipped.
         // (a syntax error makes everything after it unreadable, which is an error for the batch anyway)
         let first_bad = kinds.iter().position(|k| matches!(k, Kind::TypeError | Kind::SyntaxError));
         match (first_bad, &rb) {
             (None, Ok(vs)) => {
-                let want: Vec<&Val> = seq.iter().filter(|&&i| DOCS[i].1 == Kind::Valid).map(|&i| alone[i].as_ref().unwrap()).collect();
+                let want: Vec<&Val> = seq.iter().filter(|&&i| docs[i].1 == Kind::Valid).map(|&i| alone[i].as_ref().unwrap()).collect();
                 if vs.iter().collect::<Vec<_>>() != want {
                     ctx.fail("batch-differs-from-per-document", format!("from_multiple over {names:?} gives {vs:?}, per-document results {want:?}"), replay.clone());
                 }
@@ -190,8 +209,8 @@ pub fn run(ctx: &mut Ctx) {
             ctx.fail("iterator-items", format!("read over {names:?} yields [{}], expected [{}] (values: {got:?})", show(&got), show(&want)), replay.clone());
         }
         // single-document entry point: a stream whose first two documents both have content is rejected
-        let with_content: Vec<usize> = seq.iter().copied().filter(|&i| DOCS[i].0 != "empty").collect();
-        if seq.len() >= 2 && DOCS[seq[0]].0 != "empty" && DOCS[seq[1]].0 != "empty" && DOCS[seq[0]].1 == Kind::Valid {
+        let with_content: Vec<usize> = seq.iter().copied().filter(|&i| docs[i].0 != "empty").collect();
+        if seq.len() >= 2 && docs[seq[0]].0 != "empty" && docs[seq[1]].0 != "empty" && docs[seq[0]].1 == Kind::Valid {
             if let Ok(v) = &r1 {
                 ctx.fail("single-accepts-second-document", format!("from_str over {names:?} returns {v:?}"), replay.clone());
             }
@@ -211,7 +230,7 @@ pub fn run(ctx: &mut Ctx) {
 
 fn replay(ctx: &mut Ctx, r: &serde_json::Value) {
     let text = r["text"].as_str().unwrap_or("");
-    let ty = rec_ty();
+    let ty = if r["docs"].to_string().contains("pair") || r["docs"].to_string().contains("surplus") { pair_ty() } else { rec_ty() };
     println!("replay stream {:?}", r["docs"]);
     println!("  from_multiple: {:?}", batch(text, &ty).map_err(|e| e.to_string()));
     println!("  read: {:?}", iterate(text, &ty).into_iter().map(|x| x.map_err(|e| e.to_string())).collect::<Vec<_>>());
